@@ -53,6 +53,8 @@ type c12Odd struct {
 	Ünit   string
 	Ωmega  int
 	Éa     []int
+	Ǆep    string // a capital whose title case differs from its upper case
+	ǈuba   int    // a title-case letter is not upper case: not exported
 }
 
 type c12Wide struct {
@@ -77,7 +79,10 @@ type c12Tags []string
 var sharedChan = make(chan int)
 
 // top-level names of the data map: identifiers and names no template can spell
-var c12TopKeys = []string{"v", "v", "v", "page-title", "user.name", "2nd", "", "naïve", "in", "x y", "V", "_"}
+var c12TopKeys = []string{"v", "v", "v", "page-title", "user.name", "2nd", "", "naïve", "in", "x y", "V", "_", "Loop", "LOOP", "loops", "Nil", "TRUE", "In"}
+
+// top-level names that resemble reserved words: they are names like any other
+var c12NamesLikeKeywords = []string{"Loop", "LOOP", "lOOp", "loops", "loop_", "Loops", "loop1", "In", "IN", "iN", "inn", "Nil", "NIL", "nIl", "nill", "True", "TRUE", "tRue", "trues", "False", "FALSE", "falses", "If", "End", "Each", "For", "Else", "Break", "Use", "Slot", "Dump", "e", "E", "_", "_loop", "x"}
 
 // templates that do not refer to the data at all
 var c12BlindTemplates = []string{"ok", "", " ", "\n", "{{-- c --}}", "{{ 1 }}", "@if(false)x@end"}
@@ -334,9 +339,9 @@ func (g *valueGen) value(depth int) genValue {
 		return gv
 	case 7: // every integer width in one struct
 		if r.Intn(3) == 0 {
-			o := c12Odd{Name: "n", édad: 3, ñame: "x", ωeight: 1.5, _under: 1, я: true, Ünit: stringPool[r.Intn(len(stringPool))], Ωmega: r.Intn(100), Éa: []int{1, 2}}
+			o := c12Odd{Name: "n", édad: 3, ñame: "x", ωeight: 1.5, _under: 1, я: true, Ünit: stringPool[r.Intn(len(stringPool))], Ωmega: r.Intn(100), Éa: []int{1, 2}, Ǆep: "dz", ǈuba: 5}
 			gv := genValue{goVal: o, hiddenNames: []string{"édad", "ñame", "ωeight", "_under", "я"}, view: model.Obj(map[string]model.Value{
-				"Name": model.Str("n"), "Ünit": model.Str(o.Ünit), "Ωmega": model.Int(int64(o.Ωmega)), "Éa": model.Arr(model.Int(1), model.Int(2))})}
+				"Name": model.Str("n"), "Ünit": model.Str(o.Ünit), "Ωmega": model.Int(int64(o.Ωmega)), "Éa": model.Arr(model.Int(1), model.Int(2)), "Ǆep": model.Str("dz")})}
 			if r.Intn(2) == 0 {
 				gv.goVal = &o
 			}
@@ -785,7 +790,27 @@ func init() {
 						c.Violation("entry-point:EvaluateFile", fmt.Sprintf("EvaluateFile gave (%q, %v), want %q", fout, ferr, want.Out), map[string]any{"s": str})
 					}
 				}}
-			return []core.Section{reuse, sameName, large, shared, entries, {Name: "generated-values", N: n,
+			namesLike := core.Section{Name: "top-level-names-like-keywords", Exhaustive: true, N: len(c12NamesLikeKeywords),
+				Run: func(c *core.Ctx, i int) {
+					name := c12NamesLikeKeywords[i]
+					// every one of them at once, each with its own value; the template reads one (also as a field and as a map key)
+					data := map[string]any{}
+					for k, n := range c12NamesLikeKeywords {
+						data[n] = 1000 + k
+					}
+					type rec struct{ In, Nil, True, False, Loop, Out int }
+					data["r"] = rec{1, 2, 3, 4, 5, 6}
+					data["m"] = map[string]int{name: 77, "other": 1}
+					src := "{{ " + name + " }}|{{ " + name + " + 1 }}|{{ m[\"" + name + "\"] }}|{{ m." + name + " }}|{{ r.In }}{{ r.Nil }}{{ r.True }}{{ r.False }}{{ r.Loop }}{{ r.Out }}|{{ r[\"in\"] }}{{ r.loop }}{{ r[\"nil\"] }}"
+					want := fmt.Sprintf("%d|%d|77|77|123456|152", 1000+i, 1001+i)
+					c.Input(map[string]any{"source": src})
+					got := evalString(c, src, data)
+					c.Nontrivial(src)
+					if !got.Panicked && (got.Err != nil || got.Out != want) {
+						c.Violation("name-like-keyword", fmt.Sprintf("%s gave %s, want %q", src, got.Describe(), want), map[string]any{"source": src})
+					}
+				}}
+			return []core.Section{reuse, sameName, large, shared, entries, namesLike, {Name: "generated-values", N: n,
 				Run: func(c *core.Ctx, i int) {
 					depth := 1 + i%4
 					// the same seed builds the value twice: one is rendered, one is the reference copy
